@@ -31,6 +31,26 @@
 (* happened between its check and its record: every later decision and     *)
 (* every probe (exactly thr - live further entries are admitted) is judged *)
 (* against that set.                                                       *)
+(* First use (HotParamConc with Fresh = TRUE: Lookup / Create / Record of  *)
+(* up to K callers interleave freely).  There is no yield point inside the *)
+(* cache, so these executions are FREE-RUNNING: "burst" = G goroutines     *)
+(* issued one request each for the same (usually never-seen) value at the  *)
+(* same instant (spin barrier, real parallelism) and all of them have      *)
+(* returned; with hold = FALSE every goroutine also exited its own entry.  *)
+(* The interleaving is unknown, so the outcomes are judged by the RELATION *)
+(* the design allows (the existential is inside the judgement): every      *)
+(* caller took its decision by the admission predicate over the entries    *)
+(* live at ITS check - the n0 entries live before the burst plus some of   *)
+(* the other callers admitted in the burst:                                *)
+(*   burst      for every caller there is a number L, n0 <= L <= n0 + (the *)
+(*              OTHER callers admitted in this burst), with                *)
+(*              admitted <=> L < thr, and a rejection reports L + 1        *)
+(*   cap        as above with k = G                                        *)
+(* The deterministic part is what follows at quiescence: the entries that  *)
+(* were admitted and held are live, each for exactly one unit (OneObject / *)
+(* CounterOK of the design: no unit is recorded on a counter object that   *)
+(* is replaced afterwards), so every later "probe" admits exactly          *)
+(* thr - live further entries - after all have exited: exactly thr.        *)
 (* The abstract state follows the OBSERVED outcome, so it stays in step    *)
 (* with the real code after a reported mismatch.  Many traces are          *)
 (* concatenated; "new" starts one; the first mismatch of a trace is        *)
@@ -177,7 +197,43 @@ TStress ==
     /\ Judge(live = << >> /\ pend = << >>, [why |-> "stress-with-live-entries"])
     /\ UNCHANGED <<live, g, pend, peak>>
 
+\* Lookup / Create / Record (/ Exit) of G callers of one value, free-running: see the header.  out[i] = [id, ok, tv]
+AdmitN(res, v, n) == v = None \/ ~Ruled(res) \/ n < Thr(res, v)
+TBurst ==
+    /\ IsEvent("burst")
+    /\ LET v     == VOf(Ev)
+           lim   == v # None /\ Ruled(Ev.res)
+           n0    == IF lim THEN Count(live, Ev.res, v) ELSE 0
+           G     == Len(Ev.out)
+           adm   == { i \in 1..G : Ev.out[i].ok }
+           a     == Cardinality(adm)
+           ids   == { Ev.out[i].id : i \in 1..G }
+           \* the decision of caller i is the admission predicate over some number of live entries it can have met
+           okI(i) == \E n \in n0..(n0 + a - (IF i \in adm THEN 1 ELSE 0)) :
+                        /\ Ev.out[i].ok = AdmitN(Ev.res, v, n)
+                        /\ (~Ev.out[i].ok => Ev.out[i].tv = n + 1)
+           live2 == IF Ev.hold THEN live @@ [id \in { Ev.out[i].id : i \in adm } |-> [res |-> Ev.res, v |-> v, args |-> Ev.args]] ELSE live
+           pk    == Max(peak, Cardinality(DOMAIN pend) + G)
+           thr   == IF lim THEN Thr(Ev.res, v) ELSE -1
+           why   == IF Cardinality(ids) # G \/ ids \cap (DOMAIN live \cup DOMAIN pend) # {} THEN "burst-of-known-entry"
+                    ELSE IF \E i \in 1..G : Has(Ev.out[i], "panic") /\ Ev.out[i].panic THEN "panic"
+                    ELSE IF \E i \in 1..G : ~okI(i) THEN "burst"
+                    ELSE IF ~CapOK(live2, Ev.res, v, pk) THEN "cap"
+                    ELSE IF ~LiveArgsOK(Ev.live, live2) THEN "live-args"
+                    ELSE "ok"
+       IN  /\ live' = live2
+           /\ peak' = pk
+           /\ seen' = seen \cup {<<Ev.res, v>>}
+           /\ Judge(why = "ok",
+                    [why |-> why, v |-> v, thr |-> thr, inflight |-> n0, g |-> G, admitted |-> a,
+                     \* the number of admitted callers the design allows
+                     lo |-> IF ~lim THEN G ELSE IF thr - n0 <= 0 THEN 0 ELSE IF thr - n0 < G THEN thr - n0 ELSE G,
+                     hi |-> IF ~lim \/ n0 < thr THEN G ELSE 0,
+                     first |-> (<<Ev.res, v>> \notin seen), cap |-> IF lim THEN thr + Max(pk - 1, 0) ELSE -1,
+                     live |-> ExpLive(live2)])
+    /\ UNCHANGED <<g, pend>>
+
 TInit == l = 1 /\ live = << >> /\ seen = {} /\ g = [tr |-> 0, rules |-> << >>] /\ pend = << >> /\ peak = 0 /\ failed = FALSE
-TNext == TNew \/ TReq \/ TChk \/ TRec \/ TExit \/ TProbe \/ TStress
+TNext == TNew \/ TReq \/ TChk \/ TRec \/ TExit \/ TProbe \/ TStress \/ TBurst
 TSpec == TInit /\ [][TNext]_tvars
 =============================================================================
